@@ -201,6 +201,24 @@ class Analyzer:
                     levels = len(subs)
                 if k - levels <= 0:
                     out.append((root, k - levels, node, "%s via local %r (%s)" % (kind, name, short(node)), max(levels - k, 0)))
+        # in-place augmented assignment on a name that aliases a mutable object: `ids = database[kw]; ids += [x]` extends the caller's list
+        for n in ft.cfg.nodes:
+            st = n.stmt
+            if n.kind == "stmt" and isinstance(st, ast.AugAssign) and isinstance(st.target, ast.Name) and isinstance(st.op, (ast.Add, ast.Mult, ast.BitOr, ast.BitAnd, ast.Sub)):
+                ids = ft.reaching(st.target.id, n.id)
+                if not ids:
+                    continue
+                base = ft._defs_term(st.target.id, ids, 0)
+                a = alias_of(base)
+                if a is None:
+                    continue
+                root, k = a
+                # bytes / int valued aliases are immutable: only containers are extended in place
+                rhs = st.value
+                listish = isinstance(rhs, (ast.List, ast.ListComp, ast.Set, ast.Dict, ast.SetComp, ast.DictComp)) or \
+                    (isinstance(rhs, ast.Call) and dotted(rhs.func) in ("list", "set", "dict"))
+                if listish and k <= 0:
+                    out.append((root, k, st, "in-place %s on local %r aliasing the input (%s)" % (type(st.op).__name__, st.target.id, short(st)), 0))
         # calls into project functions that mutate their parameters; external known mutators
         for n in ft.cfg.nodes:
             if n.stmt is None or n.ast is None:
@@ -372,6 +390,8 @@ VARIANTS = [
       "    return sum(len(identifier_list) for identifier_list in db.values())", "    db.pop(None, None)\n    return sum(len(identifier_list) for identifier_list in db.values())")]),
     V("default-config-written", "fire", "R7.2", [("schemes/CGKO06/SSE2/config.py", "scan_database_and_update_config_dict",
       "    config_dict[\"param_n\"] = determine_param_n(database)", "    config_dict[\"param_n\"] = determine_param_n(database)\n    DEFAULT_CONFIG[\"param_n\"] = config_dict[\"param_n\"]")]),
+    V("pipack-extends-alias-in-place", "fire", "R7.1", [("schemes/CJJ14/PiPack/construction.py", "PiPack._Enc",
+      "            K1 = self.config.prf_f(K, b'\\x01' + keyword)", "            ids = database[keyword]\n            ids += []\n            K1 = self.config.prf_f(K, b'\\x01' + keyword)")]),
     V("benign-sorted-copy", "silent", None, [("schemes/CJJ14/PiPack/construction.py", "PiPack._Enc",
       "partition_identifiers_to_blocks(database[keyword], self.config.param_B,", "partition_identifiers_to_blocks(sorted(database[keyword]), self.config.param_B,")]),
     V("benign-deepcopy-alias", "silent", None, [(_A, "Pi._Enc", "padded_database = copy.deepcopy(database)", "db2 = copy.deepcopy(database)\n        padded_database = db2")]),
